@@ -138,7 +138,11 @@ def judge(case, ctx, prefix='C10'):
     Dm = np.vstack([np.asarray(r, dtype=float).reshape(1, -1) for r in rows_d])
     nontrivial = False
     for w in ws:
-        H, kM = call(dynamics.transfer, A, B, Cm, Dm, w) if True else (None, None)
+        tf = call(dynamics.transfer, A, B, Cm, Dm, w)
+        if raised(tf):
+            ctx.count('set_aside_point_on_a_pole')
+            continue
+        H, kM = tf
         for j, sid in enumerate(sources):
             ref_net = dynamics.unit_response_network(cd, w, sid)
             refd = netsolve.reference_from_ref(ref_net)
